@@ -29,7 +29,8 @@ class Contract:
                  inline=None, externals=None, returns=None, free=None,
                  lets=None, yields=None, variants=None, prop=None, defs=None, instantiate=None,
                  raises_only_if=None, replay=None, setup=None, pure=False, callee_contracts=None,
-                 ghost_after=None, ghost_entry=None, enclosing=None, doc=''):
+                 ghost_after=None, ghost_entry=None, enclosing=None, instantiate_entry=None,
+                 instantiate_call=None, lemmas=None, uses=None, doc=''):
         self.qualname = qualname
         self.params = dict(params or {})
         self.requires = _labelled(requires, 'pre')
@@ -57,8 +58,47 @@ class Contract:
         self.ghost_after = ghost_after
         self.ghost_entry = ghost_entry
         self.callee_contracts = dict(callee_contracts or {})   # context-specific (stronger) contracts of callees
+        self.instantiate_entry = dict(instantiate_entry or {})   # requires label -> [bindings]
+        self.instantiate_call = dict(instantiate_call or {})     # (callee qualname, ensures label) -> [bindings]
+        self.uses = dict(uses or {})       # goal label -> labels of the (quantified) hypotheses it needs
+        self.lemmas = list(lemmas or [])   # [{'before': '<statement text>', 'prove': {label: clause}}]
         self.enclosing = enclosing    # params of the enclosing function: its body is run to bind the closure
         self.doc = doc
+
+
+class Forall:
+    """a universally quantified clause kept in parts, so that the engine can
+    also assume chosen *instances* of it where it is a hypothesis (explicit
+    instantiation; the solver still gets the quantified formula as well)"""
+    def __init__(self, vars, body):
+        self.vars = dict(vars)          # name -> domain text: 'ints()' | 'refs("Cls")' | ...
+        self.body = body
+
+    def text(self):
+        return 'all(%s %s)' % (self.body, ' '.join('for %s in %s' % (v, d) for v, d in self.vars.items()))
+
+    def replace(self, a, b):
+        return Forall(self.vars, self.body.replace(a, b))
+
+
+def assume_forall_instances(ev_bind, ev_body, clause, bindings_list, env, old_store):
+    """assume clause.body[vars := bindings] for each bindings dict (guarded by
+    the domain of reference-typed variables).  ev_bind evaluates the binding
+    expressions, ev_body the clause body (they differ at call sites)."""
+    for b in bindings_list:
+        env2 = dict(env or {})
+        guard = []
+        for v, dom in clause.vars.items():
+            if v not in b:
+                raise ContractError('instance of a forall clause must bind %s' % v)
+            val = ev_bind.spec_eval(b[v], None, old_store)
+            if dom.startswith('refs('):
+                if isinstance(val, SOpt):
+                    val = val.val
+                guard.append(z3.And(val.id >= 0, val.id < ev_body.path.alloc_now()))
+            env2[v] = val
+        f = ev_body.spec_bool(clause.body, env2, old_store)
+        ev_body.path.assume(z3.Implies(z3.And([z3.BoolVal(True)] + guard), f))
 
 
 class Result:
@@ -89,7 +129,43 @@ def prove(ex, name, formula, detail='', env=None):
     if isinstance(formula, bool):
         formula = z3.BoolVal(formula)
     t0 = time.time()
-    v, model, backend = smt.check(P.pc + [z3.Not(formula)], want_model=True)
+    v, model, backend = None, None, None
+    quantified = [f for f in P.pc if has_quant(f)]
+    uses = None
+    c_root = ex.root.contract
+    if c_root is not None and c_root.uses:
+        uses = c_root.uses.get(name.rsplit('.', 1)[-1], c_root.uses.get(name))
+    if uses is not None:
+        # proof outline: the contract names the hypotheses this goal needs
+        # (sound: hypotheses are only dropped; anything but 'unsat' falls through)
+        allowed = set(uses)
+        kept = [f for f in P.pc if not has_quant(f) or P.tag_of(f) in allowed
+                or ('*ext' in allowed and P.tag_of(f) is None)]
+        v1, _, b1 = smt.check(kept + [z3.Not(formula)], fallback=False)
+        if v1 == 'unsat':
+            v, backend = 'unsat', b1 + ' (outline: %d hypotheses)' % len(allowed)
+    if v is None and len(quantified) > 6:
+        # relevance filter (sound: hypotheses are only dropped): quantified
+        # hypotheses that share no heap field with the goal are left out of a
+        # first, cheaper attempt; 'unsat' there is final, anything else falls
+        # through to the full query
+        gk = field_keys(formula)
+        kept = [f for f in P.pc if not has_quant(f) or (field_keys(f) & gk)]
+        if len(kept) < len(P.pc):
+            v1, _, b1 = smt.check(kept + [z3.Not(formula)], fallback=False,
+                                  timeout_ms=max(1000, smt.QUICK_TIMEOUT_MS // 2))
+            if v1 == 'unsat':
+                v, backend = 'unsat', b1 + ' (relevant hypotheses)'
+    if v is None:
+        v, model, backend = smt.check(P.pc + [z3.Not(formula)], want_model=True)
+    if v == 'unknown' and z3.is_false(z3.simplify(formula)):
+        # "this point must be unreachable" (an escaping exception): with
+        # quantified hypotheses the solver cannot say `sat`; a model of the
+        # quantifier-free part is taken as the candidate counterexample -- it is
+        # confirmed, or not, by the replay on the real code
+        v2, m2, _ = smt.check([f for f in P.pc if not has_quant(f)], want_model=True, fallback=False)
+        if v2 == 'sat':
+            v, model, backend = 'sat', m2, 'z3 (model of the quantifier-free part of the path condition)'
     verdict = {'unsat': 'proved', 'sat': 'refuted'}.get(v, 'unknown')
     known = None
     if v == 'sat':
@@ -112,8 +188,47 @@ def prove(ex, name, formula, detail='', env=None):
     if v == 'sat':
         ob.model = extract_model(ex, model) if model is not None else {}
     P.obligations.append(ob)
-    P.pc.append(formula)
+    if not has_quant(formula):
+        # (quantified facts are not accumulated: they slow every later query;
+        # loop invariants are re-assumed at the loop head anyway)
+        P.pc.append(formula)
     return ob
+
+
+_fk_memo = {}
+
+
+def field_keys(f):
+    """names of the heap fields ('Cls.field') a formula mentions"""
+    key = f.get_id()
+    hit = _fk_memo.get(key)
+    if hit is not None and hit[0].eq(f):
+        return hit[1]
+    out, seen, stack = set(), set(), [f]
+    while stack:
+        t = stack.pop()
+        i = t.get_id()
+        if i in seen:
+            continue
+        seen.add(i)
+        if z3.is_quantifier(t):
+            stack.append(t.body())
+            continue
+        if z3.is_app(t):
+            if t.num_args() == 0 and t.decl().kind() == z3.Z3_OP_UNINTERPRETED:
+                n = t.decl().name()
+                if n.startswith('H0!') or n.startswith('HV!'):
+                    n = n[3:]
+                    n = n.split('!')[0]
+                    for sfx in ('?', '@'):
+                        pass
+                    # strip component suffixes: '.0', '?', '@' ...
+                    import re as _re
+                    n = _re.sub(r'(\.\d+|\?|@|\.arr|\.off|\.len)*$', '', n)
+                    out.add(n)
+            stack.extend(t.children())
+    _fk_memo[key] = (f, out)
+    return out
 
 
 def extract_model(ex, model):
@@ -349,6 +464,10 @@ def apply_contract(ex, callee, fn, args, kwargs):
             env2[name] = sub.spec_eval(expr, env2, pre)
         for lab, expr in callee.ensures.items():
             P.assume(sub.spec_bool(expr, env2, pre))
+        if ex.contract is not None:
+            for (qn, lab), blist in ex.contract.instantiate_call.items():
+                if qn == callee.qualname:
+                    assume_forall_instances(ex, sub, callee.ensures[lab], blist, env2, pre)
         return result
     cls = outcomes[k]
     exc = VExc(cls, [], {'errno': OptS(IntS).fresh('errno')})
@@ -487,7 +606,10 @@ def run_one_path(ex, contract, node, res):
     if contract.setup is not None:
         contract.setup(ex, env)
     for lab, expr in contract.requires.items():
-        P.assume(ex.spec_bool(expr, env))
+        P.assume(ex.spec_bool(expr, env), tag=lab)
+    for lab, blist in contract.instantiate_entry.items():
+        ex.scopes[0].update({k: v for k, v in env.items() if k not in ex.scopes[0]})
+        assume_forall_instances(ex, ex, contract.requires[lab], blist, env, None)
     # vacuity: the precondition must be satisfiable
     if not P.prefix and not getattr(res, '_pre_checked', False):
         res._pre_checked = True
@@ -515,6 +637,9 @@ def run_one_path(ex, contract, node, res):
         res.infeasible += 1
         raise PathEnd()
     env2 = dict(env)
+    # `final.<name>`: the value of a local variable when the function was left
+    from .executor import VNamespace
+    env2['final'] = VNamespace({k: v for sc in ex.scopes for k, v in sc.items()})
     if outcome == 'return':
         res.exits['return'] = res.exits.get('return', 0) + 1
         if contract.returns is not None:
